@@ -69,17 +69,15 @@ class AcceptSweep:
                 if time.time() - self.t0 > self.time_limit:
                     self.undecided.append(dict(n=n, why='module time limit'))
                     continue
-                ex = explore(f, lambda ctx: [raw_input()], n, budget=4000, time_limit=60, kwargs=opts, long_bound=LONG_BOUND)
-                if ex.status != 'ok':
-                    self.undecided.append(dict(n=n, why=ex.status))
-                for p in ex.paths:
+                def on_path(p, opts=opts, n=n):
                     if p.kind != 'return' or not isinstance(p.value, (str, FixedStr)):
-                        continue
+                        return
                     if time.time() - self.t0 > self.time_limit:
-                        self.undecided.append(dict(n=n, why='module time limit'))
-                        break
+                        if not self.undecided or self.undecided[-1].get('why') != 'module time limit':
+                            self.undecided.append(dict(n=n, why='module time limit'))
+                        return
                     if p.ctx.model() is None:
-                        continue
+                        return
                     self.stats['accept_paths'] += 1
                     try:
                         self.checker(self, p, p.value, opts, n)
@@ -87,6 +85,10 @@ class AcceptSweep:
                         self.undecided.append(dict(n=n, why='outside the subset: ' + str(u)))
                     except z3.Z3Exception as e:
                         self.undecided.append(dict(n=n, why='z3: ' + str(e)[:60]))
+                ex = explore(f, lambda ctx: [raw_input()], n, budget=4000, time_limit=max(60, min(400, self.time_limit)), kwargs=opts,
+                             long_bound=LONG_BOUND, on_path=on_path)
+                if ex.status != 'ok':
+                    self.undecided.append(dict(n=n, why=ex.status))
         return dict(module=self.modname, findings=self.findings, obligations=self.obligations, undecided=self.undecided,
                     samples=self.samples, stats=self.stats, secs=round(time.time() - self.t0, 2))
 
